@@ -54,6 +54,8 @@ func (fv *FunctionValidator) extractFunctionCalls(expression string) []FunctionC
 
 	// Use regex to match function call patterns: identifier(
 	funcPattern := regexp.MustCompile(`([a-zA-Z_][a-zA-Z0-9_]*)\s*\(`)
+	// string literals are not code: 'f(x)' or 'a(b' must not be taken for calls (positions are kept)
+	expression = blankStringLiterals(expression)
 	matches := funcPattern.FindAllStringSubmatchIndex(expression, -1)
 
 	for _, match := range matches {
@@ -74,6 +76,26 @@ func (fv *FunctionValidator) extractFunctionCalls(expression string) []FunctionC
 	}
 
 	return functionCalls
+}
+
+// blankStringLiterals replaces the content of quoted string literals by blanks, keeping every
+// byte position.
+func blankStringLiterals(s string) string {
+	b := []byte(s)
+	var quote byte
+	for i, c := range b {
+		switch {
+		case quote != 0:
+			if c == quote {
+				quote = 0
+			} else {
+				b[i] = ' '
+			}
+		case c == '\'' || c == '"':
+			quote = c
+		}
+	}
+	return string(b)
 }
 
 // isBuiltinFunction checks if it's a built-in function using the unified function registry
